@@ -14,7 +14,9 @@ use refmodel::txjson::{self, Spell};
 const P: &str = "C11";
 fn chain_alphabet() -> Vec<(&'static str, Option<Option<Nat>>)> { // None = key absent, Some(None) = null
     let cmax = Nat::pow2(255).sub(&Nat::from_u64(19));
-    vec![("absent", None), ("null", Some(None)), ("0", Some(Some(Nat::zero()))), ("1", Some(Some(Nat::from_u64(1)))), ("2^32", Some(Some(Nat::pow2(32)))), ("2^64-1", Some(Some(Nat::pow2(64).sub(&Nat::from_u64(1))))), ("2^128+5", Some(Some(Nat::pow2(128).add(&Nat::from_u64(5))))), ("cmax", Some(Some(cmax)))]
+    vec![("absent", None), ("null", Some(None)), ("0", Some(Some(Nat::zero()))), ("1", Some(Some(Nat::from_u64(1)))), ("2^32", Some(Some(Nat::pow2(32)))), ("2^64-1", Some(Some(Nat::pow2(64).sub(&Nat::from_u64(1))))), ("2^128+5", Some(Some(Nat::pow2(128).add(&Nat::from_u64(5))))), ("cmax", Some(Some(cmax.clone()))),
+        // beyond cmax the tool may refuse; if it signs, v must still be the exact integer 35 + 2c + yParity (no wrap-around)
+        ("cmax+1", Some(Some(cmax.add(&Nat::from_u64(1))))), ("cmax+2", Some(Some(cmax.add(&Nat::from_u64(2))))), ("2^255", Some(Some(Nat::pow2(255)))), ("2^256-1", Some(Some(Nat::pow2(256).sub(&Nat::from_u64(1)))))]
 }
 fn kinds() -> [(Kind, &'static str); 3] { [(Kind::Legacy, "legacy"), (Kind::Eip2930, "eip2930"), (Kind::Eip1559, "eip1559")] }
 fn decode_out(line: &str) -> Option<(Option<u8>, Vec<Item>)> {
@@ -26,7 +28,7 @@ pub fn run(ctx: &Ctx) {
     let curve = Curve::new(); let ids = chain_alphabet();
     let keys = [key_of(&curve, GANACHE, "", &default_path(0)), key_of(&curve, GANACHE, "", &default_path(1))];
     let n = (3 * ids.len() * 2 * 2 * 2 * 2 * 2) as u64;
-    ctx.sweep("sign-transaction-matrix", "kind {legacy, 2930, 1559} x chainId {absent, null, 0, 1, 2^32, 2^64-1, 2^128+5, cmax=(2^256-37)/2} x --allow-missing-relay-protection {off, on} x --signature-only {off, on} x target parity {0, 1} x 2 accounts x 2 builds", n, |i| {
+    ctx.sweep("sign-transaction-matrix", "kind {legacy, 2930, 1559} x chainId {absent, null, 0, 1, 2^32, 2^64-1, 2^128+5, cmax=(2^256-37)/2, and cmax+1, cmax+2, 2^255, 2^256-1 which may be refused but never signed with a wrapped v} x --allow-missing-relay-protection {off, on} x --signature-only {off, on} x target parity {0, 1} x 2 accounts x 2 builds", n, |i| {
         let mut k = i as usize; let mut take = |m: usize| { let v = k % m; k /= m; v };
         let build = [Build::Release, Build::Checked][take(2)]; let acct = take(2); let want_par = take(2) == 1; let sig_only = take(2) == 1; let allow = take(2) == 1; let (cname, cid) = ids[take(ids.len())].clone(); let (kind, kname) = kinds()[take(3)];
         let key = &keys[acct];
@@ -52,6 +54,8 @@ pub fn run(ctx: &Ctx) {
             return;
         }
         if kind == Kind::Legacy && cid == Some(None) && allow && !r.ok() { ctx.eval(format!("{shape}:null-refused")); return; } // null chain id with the override: refusing is acceptable
+        let beyond = kind == Kind::Legacy && cid.clone().flatten().map_or(false, |c| c > Nat::pow2(255).sub(&Nat::from_u64(19)));
+        if beyond && !r.ok() { ctx.eval(format!("{shape}:beyond-cmax-refused")); return; }
         if !r.ok() { ctx.eval(format!("{shape}:refused")); ctx.violation(format!("{P}:sign:{sig}:refused"), format!("a signable transaction is refused: {}", r.describe()), replay); return; }
         let digest = tx.signing_hash(); let (rr, rs, rodd, _) = curve.sign_rfc6979(key, &digest);
         ctx.eval(format!("{shape}:signed,parity={}", rodd as u8));
